@@ -143,7 +143,19 @@ pub fn prof(name: &'static str, since: Instant) {
     });
 }
 
-pub const SETTLE_LIMIT: Duration = Duration::from_millis(1500);
+thread_local! {
+    static LIMIT_SCALE: std::cell::Cell<u32> = const { std::cell::Cell::new(1) };
+}
+
+/// how long the harness waits for a completion it has itself enabled before it calls it a hang;
+/// the confirmation run of a finding uses three times the limit
+pub fn settle_limit() -> Duration {
+    Duration::from_millis(1500) * LIMIT_SCALE.with(|s| s.get())
+}
+
+pub fn set_limit_scale(n: u32) {
+    LIMIT_SCALE.with(|s| s.set(n));
+}
 
 /// Harvest until `done()` holds; the condition must be something the harness itself enabled.
 /// Returns false on expiry (liveness candidate).
@@ -160,7 +172,7 @@ pub fn settle_until(rt: &Runtime, mut done: impl FnMut() -> bool) -> bool {
         }
         rounds += 1;
         if rounds > 3 {
-            if start.elapsed() > SETTLE_LIMIT {
+            if start.elapsed() > settle_limit() {
                 return false;
             }
             // a bounded wait for a completion the harness itself enabled
